@@ -49,7 +49,9 @@ func checkC18Enrich(t *testing.T, c *enrichCase, rec *Recorder) []Diff {
 	}
 	before, _ := json.Marshal(doc)
 	calls := map[string]int{}
+	succ := map[string]int{} // lookups that returned an answer (possibly an empty list)
 	callsAfterFirst := map[string]int{}
+	succAfterFirst := map[string]int{}
 	var mu sync.Mutex
 	oldLookup, oldCache := reversedns.LookupAddrFn, cache.Cache
 	defer func() { reversedns.LookupAddrFn, cache.Cache = oldLookup, oldCache }()
@@ -73,13 +75,25 @@ func checkC18Enrich(t *testing.T, c *enrichCase, rec *Recorder) []Diff {
 				return nil, ctx.Err()
 			}
 		}
+		ok := func(names []string) ([]string, error) {
+			mu.Lock()
+			succ[addr]++
+			mu.Unlock()
+			return append([]string(nil), names...), nil
+		}
+		if s.Err && s.Recovers && nth >= 2 {
+			return ok(s.Names) // the resolver has recovered
+		}
 		if s.Err && s.Timeout {
 			return nil, &net.DNSError{Err: "i/o timeout", Name: addr, IsTimeout: true}
+		}
+		if s.Err && s.NotFound {
+			return nil, &net.DNSError{Err: "no such host", Name: addr, IsNotFound: true}
 		}
 		if s.Err {
 			return nil, errors.New("scripted failure for " + addr)
 		}
-		return append([]string(nil), s.Names...), nil
+		return ok(s.Names)
 	}
 	var deadlock string
 	func() {
@@ -96,6 +110,9 @@ func checkC18Enrich(t *testing.T, c *enrichCase, rec *Recorder) []Diff {
 				for k, v := range calls {
 					callsAfterFirst[k] = v
 				}
+				for k, v := range succ {
+					succAfterFirst[k] = v
+				}
 				mu.Unlock()
 				time.Sleep(time.Minute)
 				doc.EnrichWithReverseDns()
@@ -106,11 +123,15 @@ func checkC18Enrich(t *testing.T, c *enrichCase, rec *Recorder) []Diff {
 		add("enrich-hang", "EnrichWithReverseDns panicked or never returned: %s", deadlock)
 		return ds
 	}
+	same := func(a, b []string) bool { return strings.Join(a, "\x00") == strings.Join(b, "\x00") }
 	want := func(ip net.IP) []string {
 		if len(ip) == 0 {
 			return nil
 		}
 		s := c.DNS[ip.String()]
+		if s.Err && s.Recovers && c.Twice && s.DelayMs < 5000 {
+			return s.Names // failed in the first enrichment, asked again and answered in the second
+		}
 		if s.Err || s.DelayMs >= 5000 {
 			return nil
 		}
@@ -119,13 +140,24 @@ func checkC18Enrich(t *testing.T, c *enrichCase, rec *Recorder) []Diff {
 	// a flaky address answered its first lookup only: an entry whose own (concurrent, duplicate) lookup was a later
 	// one legitimately stays empty in the first enrichment; the second enrichment is served from what was stored
 	flakyOK := func(ip net.IP, got []string) bool {
-		return len(ip) > 0 && c.Flaky[ip.String()] && !c.Twice && len(got) == 0
+		if len(ip) == 0 || c.Twice {
+			return false
+		}
+		if c.Flaky[ip.String()] && len(got) == 0 {
+			return true
+		}
+		// a recovering address: a duplicate of it in the same batch is the second lookup and is already answered
+		s := c.DNS[ip.String()]
+		return s.Err && s.Recovers && same(got, s.Names)
 	}
-	same := func(a, b []string) bool { return strings.Join(a, "\x00") == strings.Join(b, "\x00") }
 	if c.Twice {
 		// a success that was stored is served until it expires (1 h): no further question for that address, same names
 		for addr, s := range c.DNS {
-			stored := !s.Err && s.DelayMs < 5000 && callsAfterFirst[addr] > 0
+			// a failure is never stored: the address is asked again
+			if s.Err && callsAfterFirst[addr] > 0 && succAfterFirst[addr] == 0 && calls[addr] == callsAfterFirst[addr] {
+				add("failure-stored", "address %s failed to resolve in the first enrichment and was not asked again a minute later (a failed lookup must not be cached)", addr)
+			}
+			stored := s.DelayMs < 5000 && succAfterFirst[addr] > 0
 			if stored && calls[addr] != callsAfterFirst[addr] {
 				add("stored-success-requeried", "address %s was resolved successfully in the first enrichment (%d lookups) and asked again %d times a minute later", addr, callsAfterFirst[addr], calls[addr]-callsAfterFirst[addr])
 			}
@@ -185,7 +217,7 @@ func TestC18Enrich(t *testing.T) {
 			}
 			// 6000 ms is beyond the library's own 5 s lookup deadline: that lookup ends as a timeout
 			s := DNSScript{DelayMs: oneOf(rt, "dns_"+k+"_delay", 0, 0, 5, 40, 300, 6000)}
-			switch oneOf(rt, "dns_"+k+"_kind", "names", "names", "two", "empty", "error", "timeout-error") {
+			switch oneOf(rt, "dns_"+k+"_kind", "names", "names", "two", "empty", "error", "timeout-error", "notfound-error", "error-then-names") {
 			case "names":
 				s.Names = []string{"h-" + k + ".example."}
 			case "two":
@@ -194,6 +226,11 @@ func TestC18Enrich(t *testing.T) {
 				s.Names = []string{}
 			case "timeout-error":
 				s.Err, s.Timeout = true, true
+			case "notfound-error":
+				s.Err, s.NotFound = true, true
+			case "error-then-names":
+				s.Err, s.Recovers, s.NotFound = true, true, rapid.Bool().Draw(rt, "dns_"+k+"_nf")
+				s.Names = []string{"late-" + k + ".example."}
 			default:
 				s.Err = true
 			}
